@@ -11,7 +11,7 @@ from ..build import AnalysisBroken
 from ..lib_c09 import (PInterp, PARAM, OTHER, literals_compared, make_equal_model, make_find_arg_model, m_copy_token,
                        copy_lazy_field, cls_of, chain, as_obj, mk_hideset, hideset_names, mk_tokens, m_copy_token_concrete,
                        strip_ids)
-from ..lib_c09x import Desc, show, calls_in, explore_expand, KNOWN_CALLS, explore_subst, SubstPath, explore_skip_arms, new_token_flag_facts, SKIP_KINDS
+from ..lib_c09x import list_passes, Desc, show, calls_in, explore_expand, KNOWN_CALLS, explore_subst, SubstPath, explore_skip_arms, new_token_flag_facts, SKIP_KINDS
 from ..lib_c09 import Agg, NotConcrete
 
 U = 'preprocess.c'
@@ -39,7 +39,9 @@ def run(P, rep, tier):
         return None
 
     r = part('R09.1', lambda: r_expand(P, u, rep))
-    part('R09.3', lambda: r_subst(P, u, rep))
+    rs = part('R09.3', lambda: r_subst(P, u, rep))
+    if rs is not None:
+        part('R09.12', lambda: r_arg_sharing(P, u, rep, rs[0], rs[1]))
     part('R09.5', lambda: r_arg_one(P, u, rep))
     part('R09.5', lambda: r_args(P, u, rep))
     part('R09.6', lambda: r_definition(P, u, rep))
@@ -48,10 +50,12 @@ def run(P, rep, tier):
     part('R09.7', lambda: r_hideset_prims(P, u, rep))
     part('R09.9', lambda: r_stringize(P, u, rep))
     part('R09.11', lambda: r_white_space(P, rep))
+    part('R09.17', lambda: r_pp_number(P, rep))
     if r is not None:
         part('R09.8', lambda: r_builtins(P, u, rep, r[0], r[1]))
         part('R09.10', lambda: r_lookup(P, u, rep))
         part('R09.10', lambda: r_offer(P, u, rep))
+        part('R09.16', lambda: r_directive_source(P, u, rep, r[0], r[1]))
 
 
 # ------------------------------------------------------------------ expand_macro ---
@@ -73,7 +77,7 @@ def _norm_leaf(d):
 
 def r_expand(P, u, rep):
     fn = 'expand_macro'
-    it, paths = explore_expand(P, u)
+    it, paths = explore_expand(P, u, with_empty=True)
     line = u.fn(fn).line
     where = '%s:%d' % (U, line)
     rep.rule('R09.1', 'expand_macro tests hideset_contains(tok->hideset, tok->loc, tok->len) before anything else and does not expand a token whose own name is in its hide set', floor=4)
@@ -82,6 +86,7 @@ def r_expand(P, u, rep):
     rep.rule('R09.10', 'an identifier is refused expansion for exactly three reasons: its name is in its hide set, no macro of that name is defined (find_macro answers NULL exactly for non-identifiers and names hashmap_get2 does not know), or it names a function-like macro and the next token is not "(" - white space and line breaks (at_bol/has_space) never decide; preprocess2 offers every token of its stream to expand_macro before anything else; read_macro_args rejects an invocation only through skip()', floor=5)
     n_obj = n_fun = n_handler = 0
     n_refuse = {}
+    objlike_passes = []
     for ctx, out, rest in paths:
         D = Desc(it, ctx)
         calls = [e for e in ctx.events if e[0] in ('call', 'icall')]
@@ -136,8 +141,8 @@ def r_expand(P, u, rep):
             continue        # R09.8 looks at this path
         d = D.of(rest)
         facts['result'] = show(d)
-        unknown = [c for c in calls_in(d) if c not in KNOWN_CALLS]
         funclike = 'read_macro_args' in names
+        unknown = [c for c in calls_in(d) if c not in KNOWN_CALLS and (funclike or c not in list_passes(u, fn))]
         kind = 'funclike' if funclike else 'objlike'
         if funclike:
             n_fun += 1
@@ -192,6 +197,15 @@ def r_expand(P, u, rep):
         else:
             ok_S = show(S) == 'find_macro.body'
             want_S = 'm->body'
+            passes = []
+            S0 = S
+            while S0[0] == 'call' and S0[1] in list_passes(u, fn) and len(S0[2]) == 1:
+                passes.append(S0[1])
+                S0 = S0[2][0]
+            if passes:
+                ok_S = show(S0) == 'find_macro.body'
+                want_S = 'a pass over m->body'
+            objlike_passes.append((passes, '%s:%d' % (U, line)))
         rep.ob('R09.2', '%s:%s:%s-replacement-source' % (U, fn, kind), ok_S,
                'add_hideset is applied to %s instead of %s' % (show(S), want_S), where=where, facts=facts)
         leaves = sorted(_norm_leaf(x) for x in _flatten_union(H))
@@ -212,6 +226,8 @@ def r_expand(P, u, rep):
         rep.ob('R09.2', '%s:%s:%s-%s' % (U, fn, kind, construct), leaves == want,
                'the hide set given to the %s replacement is the union of %s; Prosser\'s algorithm requires %s (a missing name means re-expansion / non-termination, a surplus name suppresses legitimate expansions)' % (kind, leaves, want),
                where=where, facts=facts)
+    _objlike_paste(P, u, rep, objlike_passes)
+    _splice_flags(P, u, rep, it, paths)
     if n_obj == 0:
         rep.undecided('R09.2', '%s:%s:no-objlike-path' % (U, fn), 'no path expands an object-like macro', where=where)
     if n_fun == 0:
@@ -222,6 +238,140 @@ def r_expand(P, u, rep):
         if not n_refuse.get(need):
             rep.undecided('R09.10', '%s:%s:no-%s-path' % (U, fn, need), 'no path of expand_macro answers "not an invocation" for the reason "%s" (shape not recognised)' % need[8:], where=where)
     return it, paths
+
+
+def _objlike_paste(P, u, rep, objlike_passes):
+    """R09.14: ## in the replacement list of an object-like macro (C11 6.10.3.3 applies to both kinds of macro)"""
+    from ..lib_c09y import explore_list_pass
+    fn = 'expand_macro'
+    rep.rule('R09.14', 'the ## operator is applied in the replacement list of object-like macros too: on every path that expands an object-like macro the body goes through a pass that, for every ## that is neither first nor last, calls paste(token before, token after) in place of the three tokens, copies every other token in order, and diagnoses only a ## at either end', floor=1)
+    if not objlike_passes:
+        return
+    A = Agg(rep)
+    eof = u.enums.get('TK_EOF')
+    for passes, where in objlike_passes:
+        if not passes:
+            A.ob('R09.14', '%s:%s:objlike-paste-operator-applied' % (U, fn), False,
+                 'the replacement list of an object-like macro is spliced (add_hideset(m->body, ..)) without any pass that handles ##: `#define CAT a ## b` expands to the three tokens `a ## b` instead of `ab` (C11 6.10.3.3p3: for both object-like and function-like macro invocations each ## in the replacement list is deleted and the preceding token is concatenated with the following one)', where)
+            continue
+        pasting = 0
+        for g in passes:
+            wg = '%s:%d' % (U, u.fn(g).line)
+            it, paths, classes = explore_list_pass(P, u, g)
+            for ctx, out in paths:
+                body, _ = chain(it, ctx.body, limit=16)
+                cl = [cls_of(b) for b in body]
+                n = len(body)
+                while n and 'kind' in body[n - 1].fields and it.settle(body[n - 1].fields['kind']) == eof:
+                    n -= 1
+                ended = n < len(body)
+                facts = {'path': ctx.trail, 'replacement list': [sorted(c)[0] if c and len(c) == 1 else '?' for c in cl[:n]]}
+                # walk the list the way the operator grammar reads it: the token after a ## is its right operand whatever it is
+                want = []
+                ops = []
+                i = 0
+                shape = 'ok'
+                while i < n:
+                    c = cl[i]
+                    if c is None or ('##' in c and len(c) > 1):
+                        shape = 'unasked'
+                        break
+                    if c == {'##'}:
+                        ops.append(i)
+                        if not want:
+                            shape = 'first'
+                            break
+                        if i + 1 >= n:
+                            shape = 'last' if ended else 'cut'
+                            break
+                        want[-1] = ('paste', want[-1], body[i + 1])
+                        i += 2
+                    else:
+                        want.append(('copy', body[i]))
+                        i += 1
+                if shape == 'cut' or (shape == 'ok' and not ended):
+                    continue        # loop bound reached before the end of the list
+                if out[0] != 'ret':
+                    if out[1] in ('error_tok', 'error_at', 'error'):
+                        A.ob('R09.14', '%s:%s:diagnoses-only-paste-operator-at-either-end' % (U, g), shape in ('first', 'last'),
+                             '%s rejects a replacement list whose ## operators all stand between two tokens' % g, wg, facts)
+                    continue
+                if shape == 'unasked':
+                    A.ob('R09.14', '%s:%s:token-handled-without-asking-for-paste-operator' % (U, g), False,
+                         '%s returns on a path where a token of the list that is not the right operand of a ## may or may not be ## (it never asked)' % g, wg, facts)
+                    continue
+                if shape in ('first', 'last'):
+                    A.ob('R09.14', '%s:%s:paste-operator-at-either-end-diagnosed' % (U, g), False, '%s accepts a replacement list that begins or ends with ##' % g, wg, facts)
+                    continue
+                outl = []
+                v = it.settle(out[1])
+                ids = set(id(b) for b in body)
+                while isinstance(v, Obj) and id(v) not in ids and len(outl) < 16:
+                    outl.append(v)
+                    v = it.settle(v.fields.get('next', 0))
+
+                def matches(o, w):
+                    if w[0] == 'copy':
+                        return o.meta.get('copy_of') is w[1] and o.meta.get('made_by') is None
+                    mb = o.meta.get('made_by')
+                    if mb is None or mb[0] != 'paste' or len(mb[1]) != 2:
+                        return False
+                    return as_obj(it, mb[1][1]) is w[2] and mb[2] is o
+                good = len(outl) == len(want) and all(matches(o, w) for o, w in zip(outl, want))
+                if ops:
+                    pasting += 1
+                A.ob('R09.14', '%s:%s:%s' % (U, g, 'paste-operator-applied' if ops else 'other-tokens-copied-in-order'), good,
+                     '%s turns the replacement list %s into %d token(s) that are not [every token copied in order, each `a ## b` replaced by the result of paste(a, b) written over the copy of a]' % (g, facts['replacement list'], len(outl)), wg, facts)
+        A.ob('R09.14', '%s:%s:objlike-paste-operator-applied' % (U, fn), pasting > 0,
+             'none of the passes %s over the replacement list of an object-like macro calls paste() for a ##' % passes, where)
+    A.flush()
+
+
+def _splice_flags(P, u, rep, it, paths):
+    """R09.15: what expand_macro writes into the token list after the invocation when the replacement is empty"""
+    fn = 'expand_macro'
+    eof = u.enums.get('TK_EOF')
+    rep.rule('R09.15', 'a macro that expands to nothing leaves the tokens after the invocation as they are: append(empty, next) IS next, so on a path where the finished replacement may be empty expand_macro does not write at_bol of what append returned (the `#` of a directive on the next line would lose its place at the beginning of the line and the directive would be taken for text; a `#` in the middle of a line would gain it) and writes has_space only to set it', floor=2)
+    A = Agg(rep)
+    where = '%s:%d' % (U, u.fn(fn).line)
+    n = 0
+    for ctx, out, rest in paths:
+        if out[0] != 'ret' or any(e[0] == 'icall' for e in ctx.events):
+            continue
+        ap = [e for e in ctx.events if e[0] == 'call' and e[1] == 'append' and len(e[2]) == 2]
+        if not ap:
+            continue
+        kind = 'funclike' if any(e[0] == 'call' and e[1] == 'read_macro_args' for e in ctx.events) else 'objlike'
+        facts = {'path': ctx.trail}
+        for e in ap:
+            B = as_obj(it, e[2][0])
+            R = as_obj(it, e[4])
+            N = as_obj(it, e[2][1])
+            if not isinstance(B, Obj) or not isinstance(R, Obj):
+                rep.undecided('R09.15', '%s:%s:%s-splice-shape' % (U, fn, kind), 'the operands of append() are not followed', where=where)
+                continue
+            kv = B.fields.get('kind')
+            ks = it.settle(kv) if kv is not None else None
+            nonempty = (isinstance(ks, int) and ks != eof) or (isinstance(kv, View) and not isinstance(ks, int) and eof not in [kv.proj(c) for c in kv.cell.cands])
+            if nonempty:
+                continue
+            n += 1
+            st = [x for x in ctx.events if x[0] == 'fstore' and (x[1] is R or x[1] is N) and x[2] != 'next']
+            bad = False
+            for x in st:
+                v = it.settle(x[4])
+                if x[2] == 'has_space' and isinstance(v, int) and v == 1:
+                    continue
+                bad = True
+                inherits = isinstance(x[4], View) and x[4].cell.label.startswith('tok.')
+                A.ob('R09.15', '%s:%s:%s-%s-of-token-after-empty-replacement-written' % (U, fn, kind, x[2]), False,
+                     'on a path where the replacement may be empty (its first token is not known to differ from EOF) expand_macro stores %s into %s of the token append() returned - with an empty replacement that is the token AFTER the invocation, not a token of the replacement: `#define EMPTY` / `int a; EMPTY<newline>#define Y 2` clears at_bol of the `#`, so the directive is not recognised and Y stays undefined; `EMPTY # define R 3` makes a directive out of text; `+EMPTY() b` loses the blank before b' % (
+                         'the flag of the macro token' if inherits else repr(x[4]), x[2]), where, facts)
+            if not bad:
+                A.ob('R09.15', '%s:%s:%s-token-after-empty-replacement-keeps-its-flags' % (U, fn, kind), True, '', where, facts)
+    A.flush()
+    if n == 0:
+        rep.undecided('R09.15', '%s:%s:no-empty-replacement-path' % (U, fn), 'no expanding path on which the replacement may be empty was found', where=where)
 
 
 def _refusal_reason(it, u, ctx, calls, D):
@@ -397,19 +547,118 @@ def r_offer(P, u, rep):
         rep.undecided('R09.10', '%s:%s:no-offer-path' % (U, fn), 'no path of preprocess2 reaches expand_macro with its first token', where=where)
 
 
+def r_directive_source(P, u, rep, eit, epaths):
+    """R09.16: C11 6.10.3.4p3 - the completely macro-replaced token sequence is not processed as a directive even if it
+    resembles one. The first token of a replacement inherits at_bol of the macro name, so the directive test of preprocess2
+    has to look at something expand_macro leaves on every token of a replacement."""
+    fn = 'preprocess2'
+    if fn not in u.functions or 'expand_macro' not in u.functions:
+        raise AnalysisBroken('anchor %s vanished' % fn)
+    rep.rule('R09.16', 'the result of macro replacement is never processed as a preprocessing directive: every path of preprocess2 that takes a token as the # of a directive (does not pass it on) has established that a member which expand_macro sets on every token of a replacement (origin) is null for it', floor=1)
+    # members expand_macro sets (to a token) on the tokens of the finished replacement
+    marks = None
+    for ctx, out, rest in epaths:
+        if out[0] != 'ret' or eit.settle(out[1]) != 1 or any(e[0] == 'icall' for e in ctx.events):
+            continue
+        ah = [as_obj(eit, e[4]) for e in ctx.events if e[0] == 'call' and e[1] == 'add_hideset']
+        if not ah or not isinstance(ah[-1], Obj):
+            continue
+        B = ah[-1]
+        kv = B.fields.get('kind')
+        if kv is None or isinstance(eit.settle(kv), int):
+            continue        # empty replacement (or never looked at)
+        here = set(e[2] for e in ctx.events if e[0] == 'fstore' and e[1] is B and e[2] not in ('next', 'at_bol', 'has_space') and isinstance(as_obj(eit, e[4]), Obj))
+        marks = here if marks is None else (marks & here)
+    marks = sorted(marks or [])
+    ecalls = u.fn(fn).calls('expand_macro')
+    loop = next((a for a in ecalls[0].ancestors() if a.kind in ('WhileStmt', 'ForStmt', 'DoStmt')), None) if ecalls else None
+    if loop is None:
+        rep.undecided('R09.16', '%s:%s:shape' % (U, fn), 'preprocess2 no longer calls expand_macro from inside its token loop', where='%s:%d' % (U, u.fn(fn).line))
+        return
+    loop_body = loop.inner[0] if loop.kind == 'DoStmt' else loop.inner[-1]
+    callees = set(c.callee() for c in u.fn(fn).walk() if c.kind == 'CallExpr' and c.callee())
+    inline = set(x for x in ('is_hash',) if x in u.functions)
+    lits = literals_compared(u.fn(fn))
+    for h in inline:
+        callees |= set(c.callee() for c in u.fn(h).walk() if c.kind == 'CallExpr' and c.callee())
+        lits += [x for x in literals_compared(u.fn(h)) if x not in lits]
+    if '#' not in lits:
+        rep.undecided('R09.16', '%s:%s:shape' % (U, fn), 'preprocess2 (with is_hash) no longer compares a token with "#"', where='%s:%d' % (U, u.fn(fn).line))
+        return
+    classes = lits + [OTHER]
+    eof = u.enums.get('TK_EOF')
+
+    def no_macro(it_, ctx, n, args):
+        ctx.emit('call', 'expand_macro', args, n.line, 0)
+        return 0
+
+    def foreign(name):
+        def h(it_, ctx, n, args):
+            raise NoReturn('<foreign:%s>' % name, args, n.line)
+        return h
+    cuts = {c: foreign(c) for c in callees - inline - {'equal', 'expand_macro', 'error', 'error_tok', 'error_at'}}
+    cuts['expand_macro'] = no_macro
+
+    class LI(PInterp):
+        def exec(self, s_, env):
+            if s_ is loop_body:
+                self.ctx.iterations = getattr(self.ctx, 'iterations', 0) + 1
+                if self.ctx.iterations > 1:
+                    raise NoReturn('<next-token>', [], s_.line)
+            return super().exec(s_, env)
+    it = LI(P, u, {'cut': cuts, 'models': {'equal': make_equal_model(classes, False)}, 'loop_limit': 2, 'track_stores': True})
+
+    def mk(ctx):
+        ctx.tok = Obj('Token', lazy=True, label='tok')
+        return [ctx.tok]
+    where = '%s:%d' % (U, u.fn(fn).line)
+    A = Agg(rep)
+    n_dir = 0
+    for ctx, out in _explore_caught(it, u, fn, mk, 4000):
+        t = ctx.tok
+        kv = t.fields.get('kind')
+        if isinstance(kv, View) and list(kv.cell.cands) == [eof]:
+            continue
+        if out[0] == 'unsupported':
+            continue
+        passed = any(e[0] == 'fstore' and e[2] == 'next' and it.settle(e[4]) is t for e in ctx.events)
+        if passed:
+            continue
+        cl = cls_of(t)
+        if cl != {'#'}:
+            continue        # which tokens other than # are not passed on is not a clause of this property
+        n_dir += 1
+        facts = {'path': ctx.trail}
+        null_marks = [f for f in marks if f in t.fields and isinstance(it.settle(t.fields[f]), int) and it.settle(t.fields[f]) == 0]
+        A.ob('R09.16', '%s:%s:directive-only-on-a-token-that-is-not-the-result-of-replacement' % (U, fn), bool(null_marks),
+             'preprocess2 takes a # token as the start of a directive (decisions: %s) without having established that it is not the product of macro replacement (expand_macro marks every replacement token by setting %s; the path never finds that member null): the first token of a replacement inherits at_bol of the macro name, so `#define HASH #` / `HASH define Q 5` at the beginning of a line DEFINES Q, where C11 6.10.3.4p3 says the replaced sequence is not processed as a directive even if it resembles one (gcc leaves `# define Q 5` as text)' % (
+                 ctx.trail, '/'.join(marks) if marks else 'no member at all'), where, facts)
+    A.flush()
+    if n_dir == 0:
+        rep.undecided('R09.16', '%s:%s:no-directive-path' % (U, fn), 'no path of preprocess2 takes a # token out of the stream', where=where)
+
+
 def r_subst(P, u, rep):
     fn = 'subst'
     it, paths, classes = explore_subst(P, u)
     line = u.fn(fn).line
+    rep.rule('R09.13', 'placemarkers (C11 6.10.3.3p2-3): an operand of ## that is an empty argument behaves as a placemarker - subst diagnoses a replacement list only for what the list itself shows (# not followed by a parameter, ## first, ## last), never because an operand happened to be empty in this invocation; paste() is called with the token that stands for the operand left of the operator (looking through empty operands: `x ## y ## z` with y empty pastes x and z), and not at all when everything left of the operator back to the previous non-operand is empty', floor=5)
     rep.rule('R09.3', 'in subst the operands of # and ## are taken unexpanded (stringize/paste/copy of arg->tok), and exactly the parameters that are not operands of # or ## are replaced by preprocess2(arg->tok)', floor=10)
     for need in ('#', '##'):
         if need not in classes:
             raise AnalysisBroken('subst no longer compares tokens against %r' % need)
     A = Agg(rep)
-    seen = {'stringize': 0, 'paste-arg': 0, 'paste-body': 0, 'lhs-copy': 0, 'expand': 0, 'gnu-comma': 0, 'va-opt': 0}
+    seen = {'stringize': 0, 'paste-arg': 0, 'paste-body': 0, 'lhs-copy': 0, 'expand': 0, 'gnu-comma': 0, 'va-opt': 0, 'va-opt-content': 0}
     for ctx, out in paths:
         sp = SubstPath(it, ctx)
         facts = {'path': ctx.trail}
+        _diagnosis(it, u, ctx, out, sp, A, facts)
+        handed = set()
+        for e in sp.calls:
+            if e[1] in ('preprocess2', 'stringize', 'paste', 'subst'):
+                for a in e[2]:
+                    for t_ in chain(it, as_obj(it, a), limit=8)[0]:
+                        handed.add(id(t_))
         for e in sp.calls:
             where = '%s:%d' % (U, e[3])
             if e[1] == 'stringize':
@@ -469,6 +718,8 @@ def r_subst(P, u, rep):
                      'a parameter that follows "#" or "##" (previous token class %s) is replaced by its macro-expanded argument' % sorted(pcls or ['?']), where, facts)
             elif e[1] == 'copy_token':
                 o = e[2][0]
+                if id(o) in sp.raw and id(e[4]) in handed:
+                    continue        # a private copy of the argument made for a callee (preprocess2 relinks what it is given): not part of the result
                 if id(o) in sp.raw:
                     t, k = sp.raw[id(o)]
                     nx = sp.next_of(t)
@@ -503,9 +754,19 @@ def r_subst(P, u, rep):
                 opt = e[4]
                 tv = opt.fields.get('tok')
                 first = as_obj(it, tv) if tv is not None else None
-                k = it.settle(first.fields.get('kind')) if isinstance(first, Obj) and 'kind' in first.fields else None
-                nonempty = isinstance(k, int) and k != u.enums.get('TK_EOF')
-                linked = isinstance(first, Obj) and any(x[0] == 'fstore' and x[2] == 'next' and it.settle(x[4]) is first for x in ctx.events)
+                kv = first.fields.get('kind') if isinstance(first, Obj) and 'kind' in first.fields else None
+                k = it.settle(kv) if kv is not None else None
+                nonempty = (isinstance(k, int) and k != u.enums.get('TK_EOF')) or (isinstance(kv, View) and u.enums.get('TK_EOF') not in [kv.proj(c) for c in kv.cell.cands])
+                linked_raw = isinstance(first, Obj) and any(x[0] == 'fstore' and x[2] == 'next' and it.settle(x[4]) is first for x in ctx.events)
+                nested = [x for x in sp.calls if x[1] == 'subst' and isinstance(first, Obj) and as_obj(it, x[2][0]) is first]
+                linked_sub = any(x[0] == 'fstore' and x[2] == 'next' and any(it.settle(x[4]) is it.settle(c[4]) for c in nested) for x in ctx.events)
+                linked = linked_raw or linked_sub
+                if nested and not nonempty:
+                    # the content was handed to a nested subst(): what matters is whether THAT result is empty
+                    ro = as_obj(it, nested[0][4])
+                    kv2 = ro.fields.get('kind') if isinstance(ro, Obj) else None
+                    k2 = it.settle(kv2) if kv2 is not None else None
+                    nonempty = (isinstance(k2, int) and k2 != u.enums.get('TK_EOF')) or (isinstance(kv2, View) and u.enums.get('TK_EOF') not in [kv2.proj(c) for c in kv2.cell.cands])
                 if not isinstance(r, int):
                     continue
                 if r and not nonempty:
@@ -515,11 +776,263 @@ def r_subst(P, u, rep):
                      '__VA_OPT__(x): has_varargs is %s but the content is %s' % ('true' if r else 'false', 'emitted' if linked else 'dropped'), '%s:%d' % (U, e[3]), facts)
                 a = [show(Desc(it, ctx).of(x)) for x in hv[2]]
                 A.ob('R09.3', '%s:%s:va-opt-tests-the-invocation-arguments' % (U, fn), a == ['args'], 'has_varargs is asked about %s instead of the argument list of the invocation' % a, '%s:%d' % (U, hv[3]), facts)
+                if r and linked:
+                    seen['va-opt-content'] += 1
+                    if linked_raw:
+                        A.ob('R09.3', '%s:%s:va-opt-content-parameter-substituted' % (U, fn), False,
+                             'the tokens between the parentheses of __VA_OPT__( ) are linked into the result exactly as they stand in the replacement list: parameters, # and ## inside them are not processed (`#define F(a,...) __VA_OPT__(a)` / F(1,2) yields `a` instead of `1`; `__VA_OPT__(__VA_ARGS__)` yields the name __VA_ARGS__)', '%s:%d' % (U, e[3]), facts)
+                    else:
+                        a2 = [show(Desc(it, ctx).of(x)) for x in nested[0][2][1:]]
+                        A.ob('R09.3', '%s:%s:va-opt-content-parameter-substituted' % (U, fn), a2 == ['args'],
+                             'the content of __VA_OPT__ is substituted with %s instead of the arguments of the invocation' % a2, '%s:%d' % (U, e[3]), facts)
     A.flush()
     for k, v in seen.items():
         if v == 0:
             rep.undecided('R09.3', '%s:%s:no-%s-path' % (U, fn, k), 'no explored path of subst performs the "%s" action (shape not recognised)' % k, where='%s:%d' % (U, line))
+    r_paste_operands(P, u, rep)
     return it, paths
+
+
+def _diagnosis(it, u, ctx, out, sp, A, facts):
+    """R09.13: a path of subst that ends in a diagnostic must be explained by the replacement list alone"""
+    fn = 'subst'
+    if out[0] != 'noreturn' or out[1] not in ('error_tok', 'error_at', 'error'):
+        return
+    eof = u.enums.get('TK_EOF')
+    where = '%s:%d' % (U, out[3])
+    main = []       # the replacement list proper (tokens reached from the first one)
+    v = ctx.body
+    while isinstance(v, Obj) and len(main) < 16:
+        main.append(v)
+        v = it.settle(v.fields.get('next', 0)) if 'next' in v.fields else None
+    malformed = None
+    for i, b in enumerate(main):
+        c = sp.cls(b)
+        nx = sp.next_of(b)
+        if c == {'#'} and nx is not None and sp.cls(nx) is not None and PARAM not in sp.cls(nx):
+            malformed = 'hash-without-parameter'
+        if c == {'##'} and i == 0:
+            malformed = 'paste-operator-first'
+        if c == {'##'} and nx is not None and 'kind' in nx.fields and it.settle(nx.fields['kind']) == eof:
+            malformed = 'paste-operator-last'
+    for b in sp.body:      # the tokens after a __VA_OPT__( ... ) are reached through skip(): same list
+        if id(b) in set(id(x) for x in main):
+            continue
+        c = sp.cls(b)
+        nx = sp.next_of(b)
+        if c == {'#'} and nx is not None and sp.cls(nx) is not None and PARAM not in sp.cls(nx):
+            malformed = 'hash-without-parameter'
+        if c == {'##'} and nx is not None and 'kind' in nx.fields and it.settle(nx.fields['kind']) == eof:
+            malformed = 'paste-operator-last'
+    if malformed:
+        A.ob('R09.13', '%s:%s:diagnoses-%s' % (U, fn, malformed), True, '', where, facts)
+        return
+    t = as_obj(it, out[2][0]) if len(out) > 2 and out[2] else None
+    pr = sp.pred_of(t) if isinstance(t, Obj) else None
+    if isinstance(t, Obj) and sp.cls(t) == {'##'}:
+        if pr is not None and sp.cls(pr) == {PARAM}:
+            pp = sp.pred_of(pr)
+            if pp is not None and sp.cls(pp) == {'##'} and sp.pred_of(pp) is not None and sp.cls(sp.pred_of(pp)) == {','}:
+                return      # `, ## __VA_ARGS__ ## x`: the GNU comma extension has no prescribed meaning as an operand of a further ##
+            what = 'after-empty-parameter-operands'
+        elif pr is None and not any(t is x for x in main):
+            what = 'after-empty-va-opt'
+        else:
+            what = 'after-other-tokens'
+        A.ob('R09.13', '%s:%s:paste-operator-rejected-%s' % (U, fn, what), False,
+             'subst aborts with a diagnostic at a ## that is neither the first nor the last token of the replacement list, because what stands left of it produced no token in this invocation (%s): an empty operand is a placemarker, `#define t(x,y,z) x ## y ## z` / t(,,) is the standard\'s own example (C11 6.10.3.3p4 in 6.10.3.5 EXAMPLE 5) and must expand to nothing, t(,,3) to 3' % {
+                 'after-empty-parameter-operands': 'the parameters left of it had empty arguments', 'after-empty-va-opt': 'a __VA_OPT__( ) that vanished'}.get(what, what), where, facts)
+        return
+    A.ob('R09.13', '%s:%s:diagnostic-not-explained-by-the-replacement-list' % (U, fn), False,
+         'subst aborts with a diagnostic although the replacement list is well-formed (# is followed by a parameter, ## is neither first nor last): the reason depends on the arguments of the invocation (decisions: %s)' % (ctx.trail,), where, facts)
+
+
+def r_paste_operands(P, u, rep):
+    """R09.13 on the sub-language {parameter, ##, other token} with three rounds of the main loop: what is handed to paste()"""
+    from ..lib_c09y import explore_subst_small
+    fn = 'subst'
+    eof = u.enums.get('TK_EOF')
+    it, paths = explore_subst_small(P, u, [PARAM, '##', OTHER], loop_limit=3)
+    A = Agg(rep)
+    w0 = '%s:%d' % (U, u.fn(fn).line)
+    n_paste = 0
+    for ctx, out in paths:
+        calls = [e for e in ctx.events if e[0] == 'call']
+        body = []
+        v = ctx.body
+        while isinstance(v, Obj) and len(body) < 16:
+            body.append(v)
+            v = it.settle(v.fields.get('next', 0)) if 'next' in v.fields else None
+        idx = {id(b): i for i, b in enumerate(body)}
+        cl = [cls_of(b) for b in body]
+        facts = {'path': ctx.trail, 'replacement list': [sorted(c)[0] if c and len(c) == 1 else '?' for c in cl]}
+
+        def argfirst(b):
+            ma = b.meta.get('marg')
+            return ma.fields.get('tok') if ma is not None else None
+
+        def empty(b):
+            """True/False/None: the argument of parameter token b is empty on this path"""
+            f = argfirst(b)
+            if not isinstance(f, Obj) or 'kind' not in f.fields:
+                return None
+            k = f.fields['kind']
+            ks = it.settle(k)
+            if isinstance(ks, int):
+                return ks == eof
+            if isinstance(k, View):
+                return False if eof not in [k.proj(c) for c in k.cell.cands] else None
+            return None
+        owner_of_first = {id(argfirst(b)): b for b in body if isinstance(argfirst(b), Obj)}
+        exp_owner = {}
+        for e in calls:
+            if e[1] == 'preprocess2':
+                x = as_obj(it, e[2][0])
+                if isinstance(x, Obj) and id(x) in owner_of_first:
+                    for t_ in chain(it, e[4])[0]:
+                        exp_owner[id(t_)] = owner_of_first[id(x)]
+
+        def body_of(x):
+            """replacement-list token that the token/list x comes from"""
+            x = as_obj(it, x)
+            k = 0
+            while isinstance(x, Obj) and k < 8:
+                if id(x) in idx:
+                    return x
+                if id(x) in owner_of_first:
+                    return owner_of_first[id(x)]
+                if id(x) in exp_owner:
+                    return exp_owner[id(x)]
+                x = x.meta.get('copy_of')
+                k += 1
+            return None
+
+        def stands_for(meta):
+            mb = meta.get('made_by')
+            if mb is not None:
+                return body_of(mb[1][1]) if len(mb[1]) > 1 else None
+            src = meta.get('copy_of')
+            return body_of(src) if src is not None else None
+        for e in calls:
+            if e[1] != 'paste':
+                continue
+            res = e[4]
+            R = body_of(e[2][1])
+            if R is None or idx[id(R)] < 2 or cl[idx[id(R)] - 1] != {'##'}:
+                continue        # R09.3 looks at the right operand
+            n_paste += 1
+            h = idx[id(R)] - 1
+            # the operand left of the operator, looking through empty operands
+            j = h - 1
+            eff = 'unknown'
+            while True:
+                if cl[j] == {PARAM} and empty(body[j]) is True:
+                    if j >= 2 and cl[j - 1] == {'##'}:
+                        j -= 2
+                        continue
+                    eff = None
+                    break
+                if cl[j] == {PARAM} and empty(body[j]) is None:
+                    break
+                eff = body[j]
+                break
+            if eff == 'unknown':
+                continue
+            where = '%s:%d' % (U, e[3])
+            if eff is None:
+                A.ob('R09.13', '%s:%s:paste-with-token-left-of-empty-operands' % (U, fn), False,
+                     'paste() is called for a ## whose left operand is empty in this invocation (every operand left of it, back to the previous token that is not an operand, is an empty argument): the token that happens to be last in the result - an unrelated earlier token of the replacement list - is pasted with the right operand (`#define u(x,y,z) A x ## y ## z` / u(,,12) gives `A12` instead of `A 12`; a placemarker pasted with z is z)', where, facts)
+                continue
+            got = stands_for(res.meta.get('lhs_meta') or {})
+            A.ob('R09.13', '%s:%s:paste-left-operand-is-the-operand-before-the-operator' % (U, fn), got is eff,
+                 'paste() is handed, as its left operand, a token of the result that stands for replacement-list token %s, but the operand left of this ## (looking through empty arguments) is token %s' % (
+                     idx.get(id(got), '?') if got is not None else 'of unknown provenance', idx[id(eff)]), where, facts)
+    A.flush()
+    if n_paste == 0:
+        rep.undecided('R09.13', '%s:%s:no-paste-case' % (U, fn), 'no explored path of subst over {parameter, ##, token} replacement lists calls paste()', where=w0)
+
+
+def r_arg_sharing(P, u, rep, it, paths):
+    """One MacroArg serves every occurrence of its parameter in the replacement list (find_arg returns the same object each
+    time): its token list must stay as read_macro_arg_one made it."""
+    from ..lib_c09y import stream_writes, token_param_writes
+    fn = 'subst'
+    line = u.fn(fn).line
+    w0 = '%s:%d' % (U, line)
+    rep.rule('R09.12', 'the token list of a macro argument is shared by every occurrence of the parameter (#x, x ## y, plain x): subst never writes a member of an argument token, never links an argument token itself (only copies) into the list it builds, and never hands the list to a function that writes or relinks the tokens it is given (preprocess2 links its input tokens into its output and stamps them)', floor=4)
+    A = Agg(rep)
+    summaries = {}
+
+    def writes_of(name):
+        if name not in summaries:
+            try:
+                if name == 'preprocess2':
+                    summaries[name] = sorted(stream_writes(P, u, name))
+                elif name in u.functions:
+                    summaries[name] = sorted(set(f for i, f in token_param_writes(P, u, name)))
+                else:
+                    summaries[name] = None
+            except AnalysisBroken as e:
+                summaries[name] = None
+        return summaries[name]
+    n_seen = {'copied': 0, 'handed-over': 0}
+    for ctx, out in paths:
+        sp = SubstPath(it, ctx)
+        if not sp.raw:
+            continue
+        facts = {'path': ctx.trail}
+        rawobj = {}
+        for b in sp.body:
+            ma = b.meta.get('marg')
+            if ma is None or 'tok' not in ma.fields:
+                continue
+            v = it.settle(ma.fields.get('tok'))
+            k = 0
+            while isinstance(v, Obj) and k < 8:
+                rawobj[id(v)] = v
+                v = it.settle(v.fields.get('next', 0))
+                k += 1
+        for e in ctx.events:
+            if e[0] == 'fstore':
+                o = e[1]
+                if isinstance(o, Obj) and id(o) in sp.raw:
+                    A.ob('R09.12', '%s:%s:argument-token-written(%s)' % (U, fn, e[2]), False,
+                         'subst writes the member %s of a token that belongs to the argument list of a parameter (not of a copy): the MacroArg is the same for every occurrence of the parameter, so a later `#x`, `x ## y` or plain `x` in the same replacement list sees the changed token' % e[2], w0, facts)
+                nv = it.settle(e[4]) if e[2] == 'next' else None
+                if isinstance(nv, Obj) and id(nv) in sp.raw and not (isinstance(o, Obj) and id(o) in sp.raw):
+                    A.ob('R09.12', '%s:%s:argument-token-linked-into-result' % (U, fn), False,
+                         'a token of an argument list is itself (not a copy_token of it) linked into the list subst builds: what subst does next to the end of its list (`*cur = *paste(cur, ..)`, `cur->next = ..`, the white-space flags) rewrites the argument, which every other occurrence of the parameter shares - `#define T(n) n##_fn, #n` stringizes the pasted token, `n##_lo, n##_hi` builds a cyclic list (the preprocessor does not terminate)', w0, facts)
+            elif e[0] == 'call':
+                if e[1] == 'copy_token':
+                    if id(e[2][0]) in sp.raw:
+                        n_seen['copied'] += 1
+                    continue
+                for i, a in enumerate(e[2]):
+                    if not sp.is_shared_arg_list(a):
+                        continue
+                    n_seen['handed-over'] += 1
+                    ws = writes_of(e[1])
+                    if ws is None:
+                        rep.undecided('R09.12', '%s:%s:argument-list-given-to-%s' % (U, fn, e[1]), 'the argument list of a parameter is handed to %s, whose effect on the tokens it is given cannot be summarised' % e[1], where='%s:%d' % (U, e[3]))
+                        continue
+                    A.ob('R09.12', '%s:%s:argument-list-given-to-%s' % (U, fn, e[1]), not ws,
+                         'the token list stored in the MacroArg is handed to %s as it is, and %s writes the member(s) %s of the tokens of its input list%s: after the first plain occurrence of a parameter the argument is no longer what was written in the invocation, and a later `#x` / `x ## y` in the same replacement list works on the changed list (`#define H(x) x #x` with `#define M 42`: H(a M) gives "a 42" instead of "a M"; C11 6.10.3.1/6.10.3.2: # and ## operands are the argument as written)' % (
+                             e[1], e[1], '/'.join(ws), ' (it links every token that is not a macro into its result, so the `next` of an argument token is redirected to the expansion of what followed it)' if 'next' in ws else ''), '%s:%d' % (U, e[3]), facts)
+        clean = True
+        for i_, o in rawobj.items():
+            if o.meta.get('created'):
+                clean = False
+                A.ob('R09.12', '%s:%s:argument-token-overwritten' % (U, fn), False,
+                     'a token of an argument list is overwritten as a whole by the result of paste()/stringize()', w0, facts)
+        A.ob('R09.12', '%s:%s:argument-tokens-stay-as-read' % (U, fn), clean and not any(e[0] == 'fstore' and isinstance(e[1], Obj) and id(e[1]) in sp.raw for e in ctx.events),
+             'subst changes a token of an argument list', w0, facts)
+        A.ob('R09.12', '%s:%s:only-copies-of-argument-tokens-enter-the-result' % (U, fn),
+             not any(e[0] == 'fstore' and e[2] == 'next' and isinstance(it.settle(e[4]), Obj) and id(it.settle(e[4])) in sp.raw and not (isinstance(e[1], Obj) and id(e[1]) in sp.raw) for e in ctx.events),
+             'an argument token itself is linked into the result', w0, facts)
+    A.flush()
+    for k, v in n_seen.items():
+        if v == 0:
+            rep.undecided('R09.12', '%s:%s:no-%s-case' % (U, fn, k), 'no explored path of subst shows an argument list being %s' % k, where=w0)
 
 
 EOFC = '<eof>'
@@ -1135,6 +1648,48 @@ def r_white_space(P, rep):
                  'a token that follows a line break inside a macro argument carries (at_bol, has_space) = (%d, %d) out of tokenize(), read_macro_arg_one copies it unchanged, and join_tokens looks at has_space only: #x of `a<newline>+b` gives %r instead of "a +b" (new-line is ordinary white space inside an invocation, C11 6.10.3p10, and white space between argument tokens becomes one space, 6.10.3.2p2)' % (ab, hs, got),
                  wj, {'token state after newline': (ab, hs), 'got': got})
         A.flush()
+
+
+PPNUM_SAMPLES = [
+    # (text, category): the category names the clause of the pp-number grammar (C11 6.4.8) the text exercises
+    ('1+2', 'ends-before-operator'), ('12;', 'ends-before-operator'), ('7 ', 'ends-before-operator'), ('3)', 'ends-before-operator'), ('1-x', 'ends-before-operator'),
+    ('1e+X ', 'e-sign-continues'), ('1E-5+2', 'e-sign-continues'), ('1.5e+3f+2', 'e-sign-continues'), ('9e+', 'e-sign-continues'),
+    ('0xE+BASE;', 'e-sign-continues-after-hex-prefix'), ('0x1e-E ', 'e-sign-continues-after-hex-prefix'), ('0XAE+1', 'e-sign-continues-after-hex-prefix'), ('0xe-x,', 'e-sign-continues-after-hex-prefix'),
+    ('0x1p-3;', 'p-sign-continues'), ('0XA.Ep+B;', 'p-sign-continues'), ('1P-x ', 'p-sign-continues'), ('2p+2+2', 'p-sign-continues'),
+    ('1a+2', 'other-letter-sign-ends'), ('0xf+1', 'other-letter-sign-ends'), ('1d-1', 'other-letter-sign-ends'), ('1x+y', 'other-letter-sign-ends'),
+    ('1.5.6+', 'period-continues'), ('1..2 ', 'period-continues'), ('3.x', 'period-continues'), ('1.e+.5-', 'period-continues'),
+    ('.5e-1+x', 'leading-period-digit'), ('.5.', 'leading-period-digit'),
+    ('12ab.c9d+', 'letters-and-digits-continue'), ('0b101+1', 'letters-and-digits-continue'), ('1ULL*', 'letters-and-digits-continue'), ('1e', 'letters-and-digits-continue'),
+    ('1_000+2', 'underscore-continues'), ('0x_f;', 'underscore-continues'), ('1e_+2', 'underscore-continues'),
+]
+
+
+def _ppnum_oracle(text):
+    import re
+    m = re.match(r'\.?[0-9](?:[eEpP][+-]|[0-9A-Za-z_.])*', text)
+    return m.group(0) if m else None
+
+
+def r_pp_number(P, rep):
+    """Token boundaries are an input of macro replacement: what is one pp-number is never looked at for macro names, and
+    is one operand of # and ##. C11 6.4.8: pp-number = [.]digit (digit | identifier-nondigit | e sign | E sign | p sign | P sign | .)*
+    - whatever the prefix; evaluated by running the pp-number arm of tokenize() on concrete texts."""
+    from ..lib_c09y import scan_with_arm
+    TU = 'tokenize.c'
+    tu = P.unit(TU)
+    rep.rule('R09.17', 'a preprocessing number is lexed as C11 6.4.8 defines it, independent of any prefix: an optional period and a digit, continued by digits, letters, underscore, periods and by e/E/p/P immediately followed by + or - (so `0xE+BASE` and `1_000` are ONE token each: BASE and _000 are not macro names there, and # / ## see one operand); the pp-number arm of tokenize() run by the interpreter on concrete texts', floor=8)
+    A = Agg(rep)
+    res, line = scan_with_arm(P, tu, 'TK_PP_NUM', [t for t, c in PPNUM_SAMPLES])
+    where = '%s:%d' % (TU, line)
+    for text, cat in PPNUM_SAMPLES:
+        want = _ppnum_oracle(text)
+        got = res.get(text)
+        sp = got[0] if got else None
+        what = 'a longer' if sp and want and len(sp) > len(want) else 'a shorter'
+        A.ob('R09.17', '%s:tokenize:pp-number-%s' % (TU, cat), sp == want,
+             'on the text %r the pp-number arm makes the token %r; C11 6.4.8 makes %r one preprocessing number (%s token changes which identifiers macro replacement sees and what # and ## take as one operand: with `#define BASE 1`, `#define STR(x) #x`, `#define XSTR(x) STR(x)`, XSTR(0xE+BASE) must be "0xE+BASE")' % (text, sp, want, what),
+             where, {'text': text, 'token': sp, 'C11': want})
+    A.flush()
 
 
 def _conc(P, u, **kw):
